@@ -21,9 +21,9 @@ for t in $(grep -E "^\s+FAIL " /tmp/seedval_suite.log | awk '{print $NF}' | sort
 done
 cp "$seed/demo.rs" "tests/$demo.rs"
 echo "-- demo WITH change (expected: fails)"
-cargo test --offline --test "$demo" 2>&1 | grep -E "^test result|^test .*(FAILED|ok)$|error(\[|:)" | head -20
+RUSTFLAGS="$DEMO_RUSTFLAGS" cargo test --offline --test "$demo" 2>&1 | grep -E "^test result|^test .*(FAILED|ok)$|error(\[|:)" | head -20
 echo "-- demo WITHOUT change (expected: passes)"
-git apply -R "$seed/patch.diff" && cargo test --offline --test "$demo" 2>&1 | grep -E "^test result|error(\[|:)" | head -5
+git apply -R "$seed/patch.diff" && RUSTFLAGS="$DEMO_RUSTFLAGS" cargo test --offline --test "$demo" 2>&1 | grep -E "^test result|error(\[|:)" | head -5
 rm -f "tests/$demo.rs"; git checkout -q -- .
 echo "== done"
 } > "$out" 2>&1
